@@ -112,7 +112,10 @@ class Observable(BaseObservable):
         super().__set__(instance, value)  # send the notify
         setattr(instance, self.private_name, value)
 
-        PROCESSING_SIGNALS.clear()  # we have notified our children, so we can clear this out
+        if CURRENT_COMPUTED is None:
+            # we have notified our children, so we can clear this out; while a
+            # Computed is evaluating, what it has read so far must be kept
+            PROCESSING_SIGNALS.clear()
 
 
 class Computable(BaseObservable):
